@@ -240,11 +240,17 @@ func init() {
 	addRules("C01", "R-SAMEFACE")
 	addRules("C02", "R-CONSTREL", "R-SOSDERIVE", "R-GLOBAL")
 	addRules("C03", "R-GUARD", "R-VERTEXSYM", "R-CONSTREL", "R-SOS", "R-SOSDERIVE", "R-GLOBAL")
-	addRules("C04", "R-CONST", "R-MIRROR", "R-CONSTREL", "R-RESET", "R-FLAGS", "R-PARTITION", "R-ALLLOOPS", "R-LOCK", "R-SYNCED")
-	addRules("C05", "R-MIRROR", "R-PADDING", "R-PARITY", "R-FRESHRET", "R-RANGE", "R-PARTITION", "R-ACCUM")
+	addRules("C04", "R-XSTATE", "R-CONST", "R-MIRROR", "R-CONSTREL", "R-RESET", "R-FLAGS", "R-PARTITION", "R-ALLLOOPS", "R-LOCK", "R-SYNCED")
+	addRules("C05", "R-SQRT", "R-SPECIAL", "R-MIRROR", "R-PADDING", "R-PARITY", "R-FRESHRET", "R-RANGE", "R-PARTITION", "R-ACCUM")
 	addRules("C06", "R-GLOBAL", "R-CYCLE", "R-CELLREL", "R-SPARSEID", "R-GUARD", "R-NOALIAS", "R-CLIPENDS", "R-RESET", "R-ALLLOOPS", "R-CONSTREL")
 	addRules("C07", "R-NAMEPAIR", "R-ROLES", "R-PARITY", "R-PARTITION", "R-INIT", "R-GUARD")
-	addRules("C08", "R-CONSTREL", "R-UNITS", "R-UPDATER")
+	addRules("C08", "R-CONSTREL", "R-UNITS", "R-UPDATER", "R-SQRT", "R-SPARSEID")
+	addRules("C12", "R-ERRMODEL")
+	addRules("C17", "R-ORDERINDEP")
+	addRules("C16", "R-ERRMODEL")
+	addRules("C15", "R-WIRE")
+	addRules("C12", "R-SQRT")
+	addRules("C01", "R-SQRT")
 	addRules("C15", "R-SIBSHAPE", "R-DERIVED", "R-ALLLOOPS", "R-REINIT", "R-FINITE", "R-DECSHAPE", "R-INIT")
 	addRules("C09", "R-GUARD", "R-DECSHAPE", "R-REINIT", "R-RAWFLOAT", "R-GLOBAL", "R-DERIVED", "R-ALLLOOPS", "R-FLAGS", "R-INITORDER", "R-PAIR", "R-WIRECOUNT", "R-FIELDPAIR")
 	addRules("C10", "R-TABLE", "R-PARTITION", "R-UNITS", "R-SAMEFACE", "R-ROLES", "R-PADDING", "R-CONSTREL", "R-ALLLOOPS", "R-ACCUM", "R-FACEBOUNDS", "R-INITORDER")
@@ -303,12 +309,12 @@ func init() {
 	}
 	// C04: the lazily built index must be complete before an indexed containment query reads it - the status protocol of
 	// R-LOCK applies, the re-entry obligation (incremental updates, known finding D3 under C13/C14) does not.
-	only("C04", map[string][]string{"R-LOCK": {"atomic-status", "balanced", "publish", "status-store"}, "R-CONSTREL": {"updateFaceEdges", "stableSign", "maxDeterminantError"}, "R-MIRROR": {"stToUV"}, "R-CONST": {"EdgeCrosser", "stableSign", "triageSign", "s2.maxDeterminantError", "detErrorMultiplier"}})
+	only("C04", map[string][]string{"R-XSTATE": {"crosser-state-private"}, "R-LOCK": {"atomic-status", "balanced", "publish", "status-store"}, "R-CONSTREL": {"updateFaceEdges", "stableSign", "maxDeterminantError"}, "R-MIRROR": {"stToUV"}, "R-CONST": {"EdgeCrosser", "stableSign", "triageSign", "s2.maxDeterminantError", "detErrorMultiplier"}})
 	only("C06", map[string][]string{"R-ALLLOOPS": {"CrossingEdgeQuery"}, "R-CONSTREL": {"updateFaceEdges"}, "R-GUARD": {"boundaryApproxIntersects", "getCells"}, "R-CYCLE": {"CrossingEdgeQuery"}})
 	only("C14", map[string][]string{"R-RESET": {"applyUpdatesInternal", "ShapeIndex.Reset"}})
 	only("C15", map[string][]string{"R-ALLLOOPS": {"Polygon.decode"}, "R-INIT": {"ecode"}, "R-SIBSHAPE": {"edge-id-space"}})
-	only("C16", map[string][]string{"R-CONST": {"intersection", "projection", "robustNormal", "s2.dblError"}})
-	only("C17", map[string][]string{"R-CONST": {"interiorDist", "minUpdate", "ChordAngle).Max", "edge_distances"}, "R-UNITS": {"edge_distances", "UpdateM", "updateEdge", "s2.UpdateMaxDistance", "arc-length-through-chord"}, "R-CONSTREL": {"Polyline).Project"}})
+	only("C16", map[string][]string{"R-ERRMODEL": {"chord-from-length2-clamped"}, "R-CONST": {"intersection", "projection", "robustNormal", "s2.dblError"}})
+	only("C17", map[string][]string{"R-ORDERINDEP": {"PointCross"}, "R-CONST": {"interiorDist", "minUpdate", "ChordAngle).Max", "edge_distances"}, "R-UNITS": {"edge_distances", "UpdateM", "updateEdge", "s2.UpdateMaxDistance", "arc-length-through-chord"}, "R-CONSTREL": {"Polyline).Project"}})
 	only("C20", map[string][]string{"R-CONST": {"Snapper", "Tessellat", "tessellat"}, "R-UNITS": {"chord-length-as-angle", "Polyline", "findEndVertex", "Tessellator", "Projection"}})
 	only("C12", map[string][]string{"R-CONST": {"Cell)", "PaddedCell", "interiorDist", "maxXYZtoUVError", "cellPadding", "stuv", "poleMinLat"}, "R-MIRROR": {"projection", "ShrinkToFit"}, "R-UNITS": {"Cell)"}, "R-PADDING": {"Cell).RectBound"}, "R-GUARD": {"Cell.MaxDistanceToEdge", "Cell.DistanceToCell", "Cell.MaxDistanceToCell"}, "R-UPDATER": {"(s2.Cell)."}, "R-TABLE": {"Cell.RectBound"}})
 	only("C11", map[string][]string{"R-RANGE": {"CellID)", "CellUnion", "cellunion", "CellIndex", "cellIndex", "s2intersect", "wrap-free"}})
@@ -317,10 +323,12 @@ func init() {
 	only("C01", map[string][]string{"R-MIRROR": {"AdvanceWrap", "CellID.", "cellIDFromFaceIJWrap", "int-shift", "projection", "stToUV", "wrap:"}, "R-CONST": {"Cell).ContainsPoint", "maxXYZtoUVError"}, "R-RANGE": {"CellID)", "CellUnion", "cellunion"}})
 	only("C02", map[string][]string{"R-CONST": predicateConsts, "R-CONSTREL": {"r3.MaxPrec", "stableSign", "maxDeterminantError"}})
 	only("C03", map[string][]string{"R-CONST": {"EdgeCrosser", "intersection", "projection"}, "R-CONSTREL": {"stableSign", "maxDeterminantError", "r3.MaxPrec"}, "R-STAGES": {"RobustSign", "expensiveSign", "exactSign", "bound:", "symbolicallyPerturbedSign", "stage-callers"}, "R-GUARD": {"VertexCrossing"}})
-	only("C05", map[string][]string{"R-MIRROR": {"intersectsLatEdge"}, "R-CONST": clipConsts, "R-PADDING": {"boundaryApproxIntersects"}, "R-CYCLE": {"coverer", "CellUnionBound"}, "R-PARITY": {"iteratorContainsPoint", "ReferencePoint"}, "R-RANGE": {"ShapeIndexIterator"}, "R-PARTITION": {"Polygon.Invert"}, "R-ACCUM": {"vertex-only-bound"}})
+	only("C05", map[string][]string{"R-MIRROR": {"intersectsLatEdge"}, "R-SPECIAL": {"ordered-interval"}, "R-SQRT": {"intersectsLatEdge"}, "R-CONST": clipConsts, "R-PADDING": {"boundaryApproxIntersects", "normalizeCovering"}, "R-CYCLE": {"coverer", "CellUnionBound"}, "R-PARITY": {"iteratorContainsPoint", "ReferencePoint"}, "R-RANGE": {"ShapeIndexIterator"}, "R-PARTITION": {"Polygon.Invert"}, "R-ACCUM": {"vertex-only-bound"}})
 	only("C06", map[string][]string{"R-CONST": clipConsts})
-	only("C07", map[string][]string{"R-ROLES": {"hasCrossing", "(*s2.Loop).", "initOneLoop"}, "R-PARITY": {"loopCrosser"}, "R-INIT": {"Invert"}, "R-GUARD": {"findVertex", "getCells"}, "R-NAMEPAIR": {"wedge:", "Loop", "Relation"}})
-	only("C08", map[string][]string{"R-CONSTREL": {"findEdgesInternal", "setMaxError", "IsConservative", "initCovering"}, "R-CYCLE": {"EdgeQuery", "CellUnionBound"}})
+	only("C07", map[string][]string{"R-ROLES": {"hasCrossing", "(*s2.Loop).", "initOneLoop", "WedgeContains"}, "R-PARITY": {"loopCrosser"}, "R-INIT": {"Invert"}, "R-GUARD": {"findVertex", "getCells"}, "R-NAMEPAIR": {"wedge:", "Loop", "Relation"}})
+	only("C12", map[string][]string{"R-ERRMODEL": {"chord-from-length2-clamped"}, "R-SQRT": {"Cell", "edgeDistance", "uvToST", "expandEndpoint"}})
+	only("C01", map[string][]string{"R-SQRT": {"uvToST", "expandEndpoint"}})
+	only("C08", map[string][]string{"R-SQRT": {"Target"}, "R-SPARSEID": {"EdgeQuery", "scan"}, "R-CONSTREL": {"findEdgesInternal", "setMaxError", "IsConservative", "initCovering"}, "R-CYCLE": {"EdgeQuery", "CellUnionBound"}})
 	only("C09", map[string][]string{"R-CONST": {"siTitoPiQi"}, "R-SELFCMP": {"scan", "xyzToFaceSiTi", "stuv", "pointcompression", "s2."}, "R-GUARD": {"xyzToFaceSiTi"}, "R-DECSHAPE": {"readfull", "asByteReader"}})
 	only("C10", map[string][]string{"R-CONST": {"RectBounder", "ExpandForSubregions", "Cell).RectBound", "Cap).AddCap", "poleMinLat"}, "R-PADDING": {"Cap).RectBound", "Cell).RectBound"}, "R-SAMEFACE": {"exact:"}, "R-UNITS": {"longitude-wrap", "latitude-by-asin"}, "R-ROLES": {"initOneLoop"}, "R-PARTITION": {"Polygon.Invert"}, "R-TABLE": {"Cell.RectBound"}, "R-CONSTREL": {"ExpandForSubregions", "RectBounder"}})
 	only("C18", map[string][]string{"R-CONST": {"turningAngleMaxError", "PointArea"}, "R-ROLES": {"CanonicalFirstVertex", "initOneLoop"}, "R-STAGES": {"stage-callers"}, "R-UNITS": {"raw-longitude-span"}})
